@@ -113,6 +113,16 @@ def hard_module_matches_definition(S, nrect, fixed, flip):
         S.ensure("hard.flippable_module_is_a_single_trunk_orthogon", m.has_stog)
 
 
+@contract(P, tier="thorough", functions=[N + "netlist.Netlist.__init__"], budget_s=3000, shards=8, shard_depth=4,
+          params=[dict(area=a, nrect=3) for a in ("scalar", "two_regions")], scope="soft module with 3 rectangles (real create_stog against the find_location contract)")
+def soft_module_three_rectangles(S, area, nrect):
+    info = soft_module(S, "m", area, False, None, nrect, regions=("LUT", None, None))
+    out, E, EA = _load(S, {"Modules": {"M": info}})
+    S.ensure("soft3.loads", out.ok)
+    if out.ok:
+        _check_module(S, "soft3", out.value.modules[0], info)
+
+
 @contract(P, functions=[N + "netlist.Netlist._create_rectangles", N + "module.Module.setup"], budget_s=300,
           scope="bounded: hard module with 3 rectangles (all values symbolic)")
 def hard_module_three_rectangles(S):
